@@ -274,6 +274,65 @@ def _pair_worker(arg):
     return bad, n
 
 
+def _node_edits_worker(mode):
+    """the commitment on a running node, at a height for which the node has a built-in checkpoint (the seam: the checkpoint
+    table names the genuine block's id at its height and the horizon is at / above / below that height): a peer delivers the
+    genuine header with an edited transaction list - as a relay and as the answer to a request - before the genuine block;
+    every edited copy is refused and the genuine block is adopted afterwards"""
+    from . import c13
+    from .. import ledger, refmodel, seams, world
+    from ..world import K
+    from skepticoin import consensus
+    from skepticoin.datatypes import Block
+    from skepticoin.networking.messages import DataMessage, DATA_BLOCK
+    c13.setup_worker()
+    out = []
+    n = 0
+    w0 = c13.World()
+    H = w0.head()
+    V = w0.uni.get(H.path + ('d',))           # reward + two spends
+    extra = ledger.tx_payload(H, 'b')[0][0]
+    if V is None:
+        return 0, [('harness', 'no block with two spends on the base head')]
+    horizon = {'at': V.height, 'above': V.height + 5, 'below': V.height - 1}[mode]
+    seams.rebind(consensus, 'KNOWN_HASHES', {V.height: V.bid.hex()})
+    seams.rebind(consensus, 'MAX_KNOWN_HASH_HEIGHT', horizon)
+    try:
+        for name, l2 in edits(list(V.block.transactions), extra):
+            if [id(t) for t in l2] == [id(t) for t in V.block.transactions]:
+                continue
+            for irt in (0, 77):
+                w = c13.World()
+                w.net.clock.t = max(w.net.clock.t, V.ts + 50)
+                fake = Block(V.block.header, l2)
+                try:
+                    wire = world.from_wire(fake)
+                except Exception:
+                    continue
+                n += 1
+                w.peer().send(DataMessage(DATA_BLOCK, wire), in_response_to=irt)
+                cs = w.node.cm.coinstate
+                if V.bid in cs.block_by_hash:
+                    got = cs.block_by_hash[V.bid]
+                    out.append(('block-edit-accepted', "checkpoint for height %d names the genuine block, horizon %s it: the genuine "
+                                "header with transaction-list edit '%s' delivered %s is taken into the chain state (%d transactions)"
+                                % (V.height, mode, name, 'as a relay' if not irt else 'as the answer to a request',
+                                   len(got.transactions))))
+                    continue
+                w.peer().send(DataMessage(DATA_BLOCK, world.from_wire(V.block)), in_response_to=irt)
+                cs = w.node.cm.coinstate
+                if V.bid not in cs.block_by_hash or [t.hash() for t in cs.block_by_hash[V.bid].transactions] != \
+                        [refmodel.enc.txid(t) for t in V.block.transactions]:
+                    out.append(('genuine-block-refused-after-edit', "after the edited copy ('%s') was refused the genuine block is not "
+                                "adopted" % name))
+            if len(out) > 3:
+                break
+    finally:
+        seams.rebind(consensus, 'KNOWN_HASHES', {})
+        seams.rebind(consensus, 'MAX_KNOWN_HASH_HEIGHT', -1)
+    return n, out[:4]
+
+
 def run(ctx):
     a, L = (3, 9) if ctx.quick else (4, 9)
     N = 80 if ctx.quick else 140
@@ -322,6 +381,12 @@ def run(ctx):
             ctx.violation('tree-depends-on-call-history', "after committing to list %r, the %s of list %r (over %d ids) is wrong" % (
                 l1, where, l2, pa), {'kind': 'pair', 'a': pa, 'L': pL, 'l1': l1, 'l2': l2})
     npf += npairs
+    nne = 0
+    for mode, (cnt_, nbad) in zip(('at', 'above', 'below'), ctx.pmap(_node_edits_worker, ['at', 'above', 'below'])):
+        nne += cnt_
+        for key, what in nbad:
+            ctx.violation(key, what, {'kind': 'node-edits', 'mode': mode})
+    ctx.cov['edited_copies_delivered_to_a_node_at_a_checkpointed_height'] = nne
     ctx.cov['history_pairs'] = npairs
     sl = size_lengths()
     nsz = 0
@@ -355,6 +420,8 @@ def replay(data, ctx):
         return thrscen.replay(data)
     from skepticoin.merkletree import get_merkle_root
     out = []
+    if data['kind'] == 'node-edits':
+        return _node_edits_worker(data['mode'])[1]
     if data['kind'] == 'lists':
         ids = [leaf(i) for i in range(data['a'])]
         if data.get('special'):
